@@ -374,3 +374,19 @@ func Choices(points []Point) []int {
 	}
 	return out
 }
+
+// ---- process state of the code under test -------------------------------------------------
+
+var resetFns []func()
+
+// RegisterReset registers a function that restores package-level state of instrumented code to its initial value (generated
+// by the instrumenter in the sched variant).
+func RegisterReset(f func()) { resetFns = append(resetFns, f) }
+
+// ResetGlobals runs every registered reset function and reports how many there are.
+func ResetGlobals() int {
+	for _, f := range resetFns {
+		f()
+	}
+	return len(resetFns)
+}
